@@ -54,7 +54,7 @@ def r05_6(ctx):
     holding exactly the messages of the stream in order (poll / iterpoll hand them out first-in first-out, then None); and every
     step that runs parser or tokenizer code happens while the one lock made by __init__ is held."""
     from .. import portmodel as pm, smf, wire
-    from ..absint import AbsRaise, AList, AObj, EVENT_LOG
+    from ..absint import AbsRaise, AList, AObj, EVENT_LOG, log_event
     from ..fold import ClassRef
     try:
         cls = ctx.p.cls('mido.backends._parser_queue', 'ParserQueue')
@@ -72,7 +72,10 @@ def r05_6(ctx):
         return base.items.pop(0)
 
     def q_block(interp, base, args, kwargs, node):
+        block = kwargs.get('block', args[0] if args else True)
         if not base.items:
+            if block is False:
+                raise AbsRaise('queue.Empty', node)
             raise AbsRaise('NonTermination', node)
         return base.items.pop(0)
 
@@ -89,6 +92,12 @@ def r05_6(ctx):
         if isinstance(base, pm.AMock):
             if base.script.get('strict') and name not in base.script:
                 raise AbsRaise('AttributeError', node, implicit=True)
+            if base.name in ('RLock', 'Lock') and name in ('acquire', '__enter__'):
+                log_event('with-enter', base)
+                return True
+            if base.name in ('RLock', 'Lock') and name in ('release', '__exit__'):
+                log_event('with-exit', base)
+                return None
             f = base.script.get(name)
             return f(interp, base, args, kwargs, node) if f is not None else None
         return pm._NO
